@@ -855,3 +855,20 @@ Fixpoint selections (n : nat) : list (list bool) :=
 Example every_subsequence_accepted :
   forallb (fun sel => is_ok (load_parse_cmd true [skeleton sel])) (selections 4) = true.
 Proof. vm_compute. reflexivity. Qed.
+
+(* ------------------------------------------------------------------ corollaries in the wording of the property *)
+
+Theorem load_no_crash_wellformed g client_ok tool_known tool_creates attr_ok ownership_ok docs :
+  Forall wf_node docs -> load g client_ok tool_known tool_creates attr_ok ownership_ok docs <> LoadCrash.
+Proof.
+  intros H. apply (load_no_crash g). revert H. apply Forall_impl. exact (wf_tree_ok g).
+Qed.
+
+Lemma root_instance :
+  wf_node valid_doc
+  /\ summary (load_parse_cmd true [valid_doc]) = Some ([], (2%nat, 2%nat, 3%nat, 2%nat), [116])
+  /\ load true yes3 yes1 yes2 yes3 yes1 [valid_doc] <> LoadCrash.
+Proof.
+  split; [exact valid_doc_wf|]. split; [exact valid_doc_loads|].
+  apply load_no_crash_wellformed. constructor; [exact valid_doc_wf | constructor].
+Qed.
